@@ -57,6 +57,20 @@ def run(ctx: Ctx, tier: str) -> Result:
         res.ok("C15.ONCE", {"popped context": "processed iff at its location, else pushed back"})
     else:
         res.fail(Finding("C15.ONCE", pcb.qname, "<pop; process xor push back>", pcb.loc(), "a pending context is not `popped once, then processed if at its location, else pushed back` (pops %d, process %d, push back %d)" % (len(pops), len(procs), len(backs))))
+    # pending completions are looked at for every event the callback gets: no way out of the callback comes before them
+    # (frames that are being traced keep delivering line / return events after the configuration became empty)
+    pcalls = [c for c in t.calls_in(worker) if pcb in t.resolve_call(c, worker).repo]
+    if pcalls:
+        early = [n for n in t.nodes_in(worker, ast.Return) if n.lineno < pcalls[0].lineno]
+        if early:
+            cnd = [norm(c_) for c_, _ in paths.conditions(p, early[0], worker)]
+            res.fail(Finding("C15.ONCE", worker.qname, early[0], worker.loc(early[0]), "the callback returns%s before the pending completions are processed: the return / line event that "
+                             "would complete an open span or a deferred snapshot is dropped, the span is never closed and the snapshot never sent" % (
+                                 " when `%s`" % cnd[0][:50] if cnd else "")))
+        else:
+            res.ok("C15.ONCE", {"pending completions processed before any exit of the callback": worker.loc(pcalls[0])})
+    else:
+        res.fail(Finding("C15.ONCE", worker.qname, "<process pending callbacks>", worker.loc(), "the trace callback does not process the pending completions"))
     # the thread's pending work is dropped only when there is none left
     for f_ in [x for lst in worker.cls.methods.values() for x in lst]:
         for c in t.calls_in(f_):
